@@ -20,6 +20,7 @@ import Goat.Drv.MuxReplay
 import Goat.Drv.SrvReplay
 import Goat.Drv.PbOps
 import Goat.UnaryReply
+import Goat.Props.C02
 open Goat Goat.Drv
 
 def showOptBytes : Option Bytes → String
@@ -318,6 +319,16 @@ def evalOp (op input : String) : Option String :=
       let r := UnaryReply.reset { id := id, header := some { method := m, src := a, dst := b, record := rec }, body := some [] }
       some (showRoute r ++ "~" ++ showEnv r)
     | _ => none
+  | "ssrecv" =>
+    -- envelopes forwarded to a server stream: b<hex> body, h header-only, t<code> trailer with status, T trailer without status
+    (parseList (fun (x : String) => match x.toList with
+        | 'b' :: r => (parseHex (String.ofList r)).map (fun b => ({ header := some {}, body := some b } : Env))
+        | ['h'] => some ({ header := some {} } : Env)
+        | ['T'] => some ({ header := some {}, trailer := some [] } : Env)
+        | 't' :: r => (String.ofList r).toInt?.map (fun c => ({ header := some {}, status := some { code := c }, trailer := some [] } : Env))
+        | _ => none) "," input).map (fun es =>
+      let (bs, term) := Props.C02.serverRecv es
+      showList hexOf "," bs ++ "|" ++ (match term with | none => "pending" | some .eof => "eof" | some (.status c) => s!"status{c}"))
   | "utsrun" => match input.splitOn "|" with
     -- unaryServerTransportStream: a pool of metadata sets "md#md#…" and operations H<i> S<i> T<i> on pool entries
     | [pool, ops] => do
